@@ -60,6 +60,7 @@ def plan(tier, seed):
         cases.append(dict(key=f"condensed-inplace/{fk}/bulk=50.0", kind="ni-inplace", fk=fk, bulk=50.0, seed=seed, cost=10))
         cases.append(dict(key=f"condensed-bulk-history/{fk}", kind="ni-bulk", fk=fk, seed=seed, cost=10))
         cases.append(dict(key=f"condensed-tangent/{fk}", kind="ni-tangent", fk=fk, seed=seed, cost=5))
+        cases.append(dict(key=f"condensed-history-material/{fk}", kind="ni-statevars", fk=fk, seed=seed, cost=8))
     for fam in ("quad", "hexahedron", "quad9"):
         for n in (2, 3, 4, 5) if fam != "hexahedron" else (2, 3, 4):
             cases.append(dict(key=f"uniform/{fam}/n={n}", kind="uniform", fam=fam, n=n, seed=seed, cost=4))
@@ -410,6 +411,51 @@ def run(case):
             c.cmp(f"level{lv}/J", "converged volume ratios, in-place Newton loop", a[2], b[2], 1e-7)
             c.cmp(f"level{lv}/p", "converged pressures, in-place Newton loop", 1 + a[1] / case["bulk"], 1 + b[1] / case["bulk"], 1e-7)
         return c.result(dict(case=case["key"], cells=int(mesh.ncells)))
+    if kind == "ni-statevars":
+        # a base material WITH state variables (pseudo-elastic softening) through a load / un-load / re-load history: the
+        # condensed body and the explicit three-field formulation carry the same history, substep by substep
+        fk = case["fk"]
+        if fk == "3d":
+            mesh = fem.Cube(n=3)
+            Rg, F = fem.RegionHexahedron, fem.Field
+        else:
+            mesh = fem.Rectangle(a=(0.0, 0.4 if fk == "axi" else 0.0), b=(1.0, 1.4 if fk == "axi" else 1.0), n=3)
+            Rg, F = fem.RegionQuad, (fem.FieldAxisymmetric if fk == "axi" else fem.FieldPlaneStrain)
+        region = Rg(mesh)
+        kw = dict(axisymmetric=True) if fk == "axi" else (dict(planestrain=True) if fk == "ps" else {})
+        sym = (False, True, False)[: mesh.dim] + (False,) * (3 - mesh.dim)
+        moves = (-0.1, -0.22, -0.08, -0.22, -0.05, -0.3)
+        K_ = 40.0
+        mk_base = lambda: fem.OgdenRoxburgh(fem.NeoHooke(mu=1.0), r=2.5, m=0.6, beta=0.1)  # noqa
+        out = {}
+        for tag in ("c", "m"):
+            if tag == "c":
+                fld = fem.FieldContainer([F(region, dim=mesh.dim)])
+                body = fem.SolidBodyNearlyIncompressible(mk_base(), fld, bulk=K_)
+            else:
+                fld = fem.FieldsMixed(region, n=3, **kw)
+                body = fem.SolidBody(fem.NearlyIncompressible(mk_base(), bulk=K_), fld)
+            bounds, lc = fem.dof.uniaxial(fld, clamped=True, move=0.0, axis=0, sym=sym)
+            res_ = []
+            for mv in moves:
+                bounds["move"].update(mv)
+                ext0 = fem.dof.apply(fld, bounds, lc["dof0"])
+                r_ = fem.newtonrhapson(items=[body], x0=fld, dof0=lc["dof0"], dof1=lc["dof1"], ext0=ext0, tol=1e-11, verbose=False)
+                c.trans += r_.iterations
+                if tag == "c":
+                    body.assemble.vector(fld)
+                    res_.append((fld[0].values.copy(), np.asarray(body.results.state.p).ravel().copy(), np.asarray(body.results.state.J).ravel().copy(), np.asarray(body.results.statevars).copy()))
+                else:
+                    res_.append((fld[0].values.copy(), fld[1].values.ravel().copy(), fld[2].values.ravel().copy(), np.asarray(body.results.statevars).copy()))
+            out[tag] = res_
+        for i, (a, b) in enumerate(zip(out["c"], out["m"])):
+            c.cmp(f"substep{i}/u", "displacements with a history-dependent base material: condensed vs explicit", a[0], b[0], 1e-7)
+            c.cmp(f"substep{i}/J", "volume ratios with a history-dependent base material", a[2], b[2], 1e-7)
+            c.cmp(f"substep{i}/p", "pressures with a history-dependent base material", 1 + a[1] / K_, 1 + b[1] / K_, 1e-7)
+            c.cmp(f"substep{i}/state", "committed state variables (stored maximum energy) of the base material", a[3], b[3], 1e-7)
+        if not (np.abs(out["m"][-1][3]).max() > 0 and np.abs(out["m"][1][3] - out["m"][0][3]).max() > 0):
+            c.bad("history-not-carried", "the explicit formulation's committed state must follow the load history (running maximum grows with the load)", float(np.abs(out["m"][-1][3]).max()), "> 0 and growing")
+        return c.result(dict(case=case["key"], cells=int(mesh.ncells), substeps=len(moves)))
     if kind == "ni-tangent":
         # the condensed tangent equals the explicit three-field tangent with p and J condensed out (Schur complement) at the same
         # (u, p, J) -- whatever the route by which the long-lived condensed body was brought to that state: every sequence (<= 3)
